@@ -41,6 +41,18 @@ STRENGTHENED = {
  "C18-5": "missed at first (no zero-padded integer of >= 12 characters among the option texts): typing witnesses with an independent decimal rule",
  "C19-5": "missed at first (no collection member with an empty name): tricky member names",
  "C20-5": "missed at first (no two names equal up to case in one group): name twins",
+ "C01-6": "missed at first (no charset value other than utf-8 next to non-ASCII text): charset-variants family",
+ "C05-6": "missed at first (no field whose length is an exact multiple of 10240): length ladder",
+ "C06-6": "missed at first (largest document 1 MiB + 64 KiB + 1): huge documents from a pattern generator",
+ "C07-6": "missed at first (injected errors were bare kinds with a text payload): error shapes",
+ "C08-6": "missed at first (failing sources were sticky and the consumer stopped at the first error): transient failures, consumer reads on",
+ "C09-6": "missed at first (no operation attribute named document-uri among the additions): all RFC 8011 / CUPS operation attribute names",
+ "C10-6": "missed at first (no list longer than 4): long argument lists",
+ "C11-6": "missed at first (largest response document 70 000 bytes): huge bodies under each framing",
+ "C12-6": "missed at first (one ignore_tls_errors call per builder): flag sequences",
+ "C16-6": "missed at first (the library is untouched; the CLI classifies on its own): status sweep through ipputil print, in C18 and as a section of C16",
+ "C18-6": "missed at first (no connection reset with later connections served): reset scenarios in C18 and C11",
+ "C20-6": "missed at first (no attribute named like a field of the data model): structural names",
  "C18-1": "missed by C18 at first (caught by C17 from the start); C18 now scripts all 10 blocking reasons, scalar and inside a set",
 }
 def main():
